@@ -352,7 +352,7 @@ def lexer_validate(chk, binary, sc, docs, what, verdict=False):
     recs = read_ndjson(out)
     if not recs or not any(r["tokens"] for r in recs):
         raise Infra("the token hook recorded nothing (hook removed or not compiled in?)")
-    res = run_tlc("Lexer", LEXER_CFG, sc, data_files={"lexer_docs.ndjson": out}, timeout=3000)
+    res = run_tlc("Lexer", LEXER_CFG, sc, data_files={"lexer_docs.ndjson": out}, timeout=3000, tolerate_errors=True)
     ntok = sum(len(r["tokens"]) for r in recs)
     if res.violated:
         rec = {"lexer": "TLC rejects a recorded token trace (%s): %s" % (what, res.violated), "detail": res.tail[-1800:]}
@@ -384,7 +384,7 @@ def listener_validate(chk, binary, sc, recs, limit):
     traces = read_ndjson(out)
     if not traces:
         raise Infra("the listener hook recorded no trace (hook removed or not compiled in?)")
-    res = run_tlc("DslListener", LISTENER_CFG, sc, data_files={"listener_traces.ndjson": out}, timeout=3000)
+    res = run_tlc("DslListener", LISTENER_CFG, sc, data_files={"listener_traces.ndjson": out}, timeout=3000, tolerate_errors=True)
     events = sum(len(t["events"]) for t in traces)
     if res.violated:
         chk.drift.append({"listener": "TLC rejects a recorded listener trace: %s" % res.violated, "detail": res.tail[-600:]})
@@ -486,7 +486,7 @@ def doc_validate(chk, binary, sc, docs, tag, corrupt=None):
     # compares unequal, depending on what had been interned before): every non-ASCII character is handed over as the ASCII text \u{hex},
     # the same way wherever it occurs, so equalities and the positions of line breaks are preserved
     write_ndjson(out, [_ascii(t) for t in traces])
-    res = run_tlc("DslDoc", DOC_TRACE_CFG, sc, data_files={"doc_traces.ndjson": out}, defs="TJobAt(i) == <<>>", timeout=3000)
+    res = run_tlc("DslDoc", DOC_TRACE_CFG, sc, data_files={"doc_traces.ndjson": out}, defs="TJobAt(i) == <<>>", timeout=3000, tolerate_errors=True)
     events = sum(len(t["events"]) for t in traces)
     if res.violated:
         bad = traces[res.ints["ri"] - 1] if "ri" in res.ints else None
